@@ -655,6 +655,7 @@ package core
 //@   trusted
 //@   modifies self.postnodes, mapof(self.postnodes)
 //@   ensures self.postnodes == old(self.postnodes) || fresh(self.postnodes)
+//@   ensures self.postnodes != nil && alloc(self.postnodes)
 
 //@ func core.Node.attachToFileParents property C02 C06
 //@   trusted
@@ -777,3 +778,16 @@ package core
 //@   loop 1 invariant forall j, q :: 0 <= j && j < iter && 0 <= q && q < len(splitargs) && splitargs[q] == PL[j].Id && !isnil(args[PL[j].Id]) ==> istype(ast.Call.Bindings.List[j].Exp, ptr_syntax.SplitExp)
 //@   loop 1 invariant forall j :: 0 <= j && j < iter ==> alloc(ast.Call.Bindings.List[j])
 //@   loop 2 invariant 0 <= iter && iter <= len(splitargs) && forall q :: 0 <= q && q < iter ==> splitargs[q] != param.Id
+
+// Node.setPrenode registers the prerequisite on this node itself (whatever prenodes it
+// already has), after pushing it down to the subnodes.  Ownership precondition, preserved:
+// no node's postnodes map is any node's prenodes map; both are allocated when not nil.
+//@ func core.Node.setPrenode property C02
+//@   requires !isnil(prenode)
+//@   requires @disjoint forall x *core.Node, y *core.Node :: x.postnodes == nil || x.postnodes != y.prenodes
+//@   requires @wf forall x *core.Node :: (x.postnodes == nil || alloc(x.postnodes)) && (x.prenodes == nil || alloc(x.prenodes))
+//@   ensures @registered self.prenodes != nil && has(self.prenodes, fn(core.Nodable.GetFQName, prenode))
+//@   ensures @disjoint forall x *core.Node, y *core.Node :: x.postnodes == nil || x.postnodes != y.prenodes
+//@   ensures @wf forall x *core.Node :: (x.postnodes == nil || alloc(x.postnodes)) && (x.prenodes == nil || alloc(x.prenodes))
+//@   loop 1 invariant forall x *core.Node, y *core.Node :: x.postnodes == nil || x.postnodes != y.prenodes
+//@   loop 1 invariant forall x *core.Node :: (x.postnodes == nil || alloc(x.postnodes)) && (x.prenodes == nil || alloc(x.prenodes))
